@@ -120,6 +120,59 @@ def check_arb(seed):
     return None
 
 
+def _sig(orders):
+    return [(type(o).__name__, o.agent_id, o.market_id, o.is_buy, o.kind, o.volume, o.price, o.ttl) for o in orders]
+
+
+def check_arb_wrapper(seed):
+    """ArbitrageAgent.submit_orders(markets) == concatenation, in list order, of the per-market baskets"""
+    rng = random.Random(seed)
+    markets = []; acc = {}
+    mid = 0
+    for g in range(rng.randint(1, 3)):
+        n = rng.randint(1, 3)
+        comps = [mk(mid + i, 100.0 + rng.randint(-5, 5), tick=1.0) for i in range(n)]
+        idx = mk(mid + n, 100.0, tick=1.0, cls=IndexMarket)
+        idx._add_markets(comps)
+        idx._market_prices[idx.time] = 100.0 + rng.choice([-8, -1, 0, 1, 8])
+        idx._is_running = rng.random() < 0.9
+        mid += n + 1
+        markets += comps + [idx]
+    rng.shuffle(markets)
+    a = ArbitrageAgent(agent_id=5, prng=random.Random(1), simulator=Sim(), name="arb")
+    a.asset_volumes = {m.market_id: 0 for m in markets if rng.random() < 0.9}
+    a.order_volume = rng.randint(1, 3); a.order_threshold_price = rng.choice([0.5, 2.0]); a.order_time_length = 2
+    exp = []
+    for m in markets:
+        exp += a._submit_orders(m)
+    got = a.submit_orders(markets)
+    if _sig(got) != _sig(exp):
+        return f"ArbitrageAgent.submit_orders gives {_sig(got)}, the baskets of the listed markets in order are {_sig(exp)}"
+    return None
+
+
+def check_fcn_wrapper(seed):
+    """FCNAgent.submit_orders(markets) == concatenation, in list order, of submit_orders_by_market over the list (same generator state)"""
+    rng = random.Random(seed)
+    ms = [mk(i, 300.0 + 10 * i, rng=rng, steps=rng.randint(1, 8)) for i in range(rng.randint(1, 4))]
+    def agent():
+        a = FCNAgent(agent_id=7, prng=RecPrng(seed), simulator=Sim(), name="f")
+        a.asset_volumes = {m.market_id: 0 for m in ms if m.market_id % 3 != 2}; a.cash_amount = 1000
+        a.fundamental_weight, a.chart_weight, a.noise_weight = 1.0, 0.5, 1.0
+        a.noise_scale = 0.01; a.time_window_size = 3; a.mean_reversion_time = 2; a.order_margin = 0.01; a.margin_type = 0; a.is_chart_following = True
+        return a
+    a, b = agent(), agent()
+    exp = []
+    for m in ms:
+        exp += b.submit_orders_by_market(m)
+    got = a.submit_orders(ms)
+    if _sig(got) != _sig(exp):
+        return f"FCNAgent.submit_orders gives {_sig(got)}, the per-market orders in list order are {_sig(exp)}"
+    if any(not wf(o, a, set(a.asset_volumes)) for o in got):
+        return "FCN order not well-formed / for a market the agent cannot access"
+    return None
+
+
 def check_setups(seed):
     """set-up from a configuration with constant parameters: every strategy parameter of the three agents equals the value configured under ITS OWN key"""
     from pams.simulator import Simulator
@@ -164,7 +217,8 @@ def check_setups(seed):
     return None
 
 
-CHECKS = [("FCNAgent.setup", check_setups), ("MarketMakerAgent.setup", check_setups), ("ArbitrageAgent.setup", check_setups), ("FCNAgent.submit_orders_by_market", check_fcn), ("MarketMakerAgent.submit_orders", check_mm), ("MarketMakerAgent.get_base_price", check_mm), ("ArbitrageAgent._submit_orders", check_arb)]
+CHECKS = [("FCNAgent.setup", check_setups), ("MarketMakerAgent.setup", check_setups), ("ArbitrageAgent.setup", check_setups), ("FCNAgent.submit_orders_by_market", check_fcn), ("MarketMakerAgent.submit_orders", check_mm), ("MarketMakerAgent.get_base_price", check_mm), ("ArbitrageAgent._submit_orders", check_arb),
+          ("ArbitrageAgent.submit_orders", check_arb_wrapper), ("FCNAgent.submit_orders", check_fcn_wrapper)]
 
 
 def search(seed, tier, obligation, hints):
